@@ -1017,3 +1017,32 @@ CASES += [
          old="""            let (l, r) = if l < r { (l, r) } else { (r, l) };""",
          new="""            let (l, r) = if r <= l { (r, l) } else { (l, r) };"""),
 ]
+
+_SM_FIELD = ("""    order: RefCell<VarOrder>,
+}""", """    order: RefCell<VarOrder>,
+    smooth_table: RefCell<HashMap<(BddPtr<'a>, usize, usize), BddPtr<'a>>>,
+}""")
+_SM_INIT = ("""            stats: RefCell::new(BddBuilderStats::new()),
+        }""", """            stats: RefCell::new(BddBuilderStats::new()),
+            smooth_table: RefCell::new(HashMap::new()),
+        }""")
+CASES += [
+    dict(name="gl9-persistent-memo-key-misses-parameter", file=B, rule="GL", props=["C10"], expect="smooth_helper:GL9",
+         old="""        let level_var = self.order.borrow().var_at_level(current);
+        match bdd {""",
+         new="""        if let Some(r) = self.smooth_table.borrow().get(&(bdd, current, 0)) {
+            return *r;
+        }
+        let level_var = self.order.borrow().var_at_level(current);
+        match bdd {""",
+         more=[(B,) + _SM_FIELD, (B,) + _SM_INIT]),
+    dict(name="gl9-persistent-memo-complete-key-ok", file=B, rule="GL", props=["C10"], expect=None,
+         old="""        let level_var = self.order.borrow().var_at_level(current);
+        match bdd {""",
+         new="""        if let Some(r) = self.smooth_table.borrow().get(&(bdd, current, total)) {
+            return *r;
+        }
+        let level_var = self.order.borrow().var_at_level(current);
+        match bdd {""",
+         more=[(B,) + _SM_FIELD, (B,) + _SM_INIT]),
+]
